@@ -245,6 +245,30 @@ Example C10_nonvacuous_reply_wf :
   reply_allowed "h" (CHello "2.0" [] (HClient true false "u" JNull "t")) (RError "invalid_token" "other") = false.
 Proof. exact reply_wf_examples. Qed.
 
+(* ---- strengthening s30: a protocol 2.0 hello whose token is not time-valid gets no session --------------------------
+   The token of a 2.0 hello is opaque for the model (the hello is handed to processHello: C10_prehello_hello_type);
+   P_C10 ([must_refuse_hello], corr/Run_C10.v) reads the lifetime claims the harness put into the token and demands,
+   for client and federation hellos alike, exactly one error with a code and unchanged tables when the token has no
+   iat, no exp, an exp before its iat, or iat / nbf / exp beyond twice the leeway.  The clause is complete on the
+   side of missing and inconsistent claims: *)
+Theorem C10_untimely_token_complete : forall i n e,
+  token_untimely (i, n, e) = false ->
+  exists iv ev, i = Some iv /\ e = Some ev /\ (iv <= ev)%Z /\ (iv < 2 * token_leeway)%Z /\ (- (2 * token_leeway) < ev)%Z /\
+                forall nv, n = Some nv -> (nv < 2 * token_leeway)%Z.
+Proof. exact untimely_complete. Qed.
+
+Theorem C10_untimely_token_missing_claims : forall i n e,
+  i = None \/ e = None \/ (exists iv ev, i = Some iv /\ e = Some ev /\ (ev < iv)%Z) -> token_untimely (i, n, e) = true.
+Proof. exact untimely_missing. Qed.
+
+Example C10_nonvacuous_untimely :
+  must_refuse_hello 0 (IDoc (ex_hello_v2 [("type", JStr "federation")] "@TOK:0:0:1:-5:_:_:@")) = true /\
+  must_refuse_hello 0 (IDoc (ex_hello_v2 [] "@TOK:0:0:1:_:_:300:@")) = true /\
+  must_refuse_hello 0 (IDoc (ex_hello_v2 [("type", JStr "federation")] "@TOK:0:0:1:-5:_:300:@")) = false /\
+  P_one (fun _ => false) 0 (IDoc (ex_hello_v2 [("type", JStr "federation")] "@TOK:0:0:1:-5:_:_:@")) (ex_obs [RHello "h"] false) = false /\
+  P_one (fun _ => false) 0 (IDoc (ex_hello_v2 [("type", JStr "federation")] "@TOK:0:0:1:-5:_:_:@")) (ex_obs [RError "token_expired" "h"] true) = true.
+Proof. repeat split; vm_compute; reflexivity. Qed.
+
 Print Assumptions C10_schema.
 Print Assumptions C10_schema_params.
 Print Assumptions C10_size_limit.
@@ -267,3 +291,5 @@ Print Assumptions C10_self_control_dropped.
 Print Assumptions C10_self_message_dropped.
 Print Assumptions C10_error_replies_coded.
 Print Assumptions C10_model_replies_wellformed.
+Print Assumptions C10_untimely_token_complete.
+Print Assumptions C10_untimely_token_missing_claims.
